@@ -1,6 +1,6 @@
 """Per-property verification plans: which models TLC explores, which traces are recorded from the
 real code and validated, which TLC-generated vectors are replayed. See DESIGN.md section 6."""
-from vlib import model_check, record_and_validate, gen_and_replay, mkcfg, build_cli, gen_record_validate
+from vlib import model_check, record_and_validate, gen_and_replay, mkcfg, build_cli, gen_record_validate, proof_check
 
 
 def bdd_jobs(ctx, mode, n, segments, length, nmax):
@@ -33,6 +33,8 @@ ORDERS3 = ["123", "132", "213", "231", "312", "321"]
 def ite_key_checks(ctx):
     """RobddAlgo: the standard-triple normalisation (Ite::new) is key-sound (design level) and the real Ite::new
     yields a sound key - in fact the model's key - on every triple (conformance)."""
+    # proof (TLAPS, any number of variables, any order / complement predicates): the transcribed Ite::new is key-sound
+    proof_check(ctx, "KeySoundProof", "Ite::new as transcribed in RobddAlgo preserves Ite(f,g,h) for functions over any universe")
     for o in ("12", "21"):
         model_check(ctx, "MC_RobddAlgo", "MC_RobddAlgo_2_%s.cfg" % o, "KeySound / IteRec / CondRec for all 4096 triples of 2-variable functions, order %s" % o,
                     workers=2, timeout=600)
